@@ -33,6 +33,7 @@ type G struct {
 	R      *rng.R
 	P      Profile
 	used   map[string]bool
+	order  []string // names in the order they were handed out (deterministic choice among them)
 	left   int
 	ellN   int
 	ellIDs []int
@@ -56,12 +57,28 @@ var keywords = map[string]bool{"L": true, "A": true, "B": true, "BOOLEAN": true,
 
 func IsKeyword(s string) bool { return keywords[strings.ToUpper(s)] }
 
-var nameBases = []string{"x", "y", "v", "val", "_", "_9", "a1", "Temp", "MDLN", "SOFTREV", "x_1", "abc_DEF", "w", "h", "s1f1", "e", "l0", "b2", "i16", "u", "t1", "ff", "Z", "__"}
+var nameBases = []string{"x", "y", "v", "val", "_", "_9", "a1", "Temp", "MDLN", "SOFTREV", "x_1", "abc_DEF", "w", "h", "s1f1", "e", "l0", "b2", "i16", "u", "t1", "ff", "Z", "__",
+	// identifiers that look like numbers, keywords or special float words to a careless reader
+	"inf", "Inf", "nan", "NaN", "Infinity", "INFINITY", "e1", "E2", "x0", "b1", "o7", "p1", "TRUE", "False", "nil", "null", "L1", "A2", "B3", "I16", "U64", "F16", "Tt", "Ff", "W", "H", "E", "S1", "F1", "ceid", "CEID", "Ceid"}
 
 // VarName returns a fresh, valid variable name.
 func (g *G) VarName() string {
 	if g.used == nil {
 		g.used = map[string]bool{}
+	}
+	// sometimes a name that differs from an existing one only in letter case (names are case-sensitive)
+	if len(g.order) > 0 && g.R.Chance(1, 12) {
+		for _, n := range []string{g.order[g.R.Intn(len(g.order))]} {
+			alt := strings.ToUpper(n)
+			if alt == n {
+				alt = strings.ToLower(n)
+			}
+			if alt != n && !g.used[alt] && !IsKeyword(strings.SplitN(alt, "[", 2)[0]) && !strings.Contains(alt, "[") {
+				g.used[alt] = true
+				g.order = append(g.order, alt)
+				return alt
+			}
+		}
 	}
 	for {
 		n := g.R.PickStr(nameBases)
@@ -87,6 +104,7 @@ func (g *G) VarName() string {
 			continue
 		}
 		g.used[n] = true
+		g.order = append(g.order, n)
 		return n
 	}
 }
@@ -94,6 +112,7 @@ func (g *G) VarName() string {
 // Tree draws one item tree.
 func (g *G) Tree() *ref.Item {
 	g.used = map[string]bool{}
+	g.order = nil
 	g.left = g.P.Budget
 	g.ellN = 0
 	it := g.item(0, true)
